@@ -276,4 +276,36 @@ Section Selection.
       destruct (sys_devnode (fst (fst d))); [discriminate|discriminate H].
     - cbn [andb orb] in H. destruct (sys_devnode (fst (fst d))); [discriminate|discriminate H].
   Qed.
+
+  (* the statements of Properties/C16.v *)
+  Theorem selection_all : forall t ex ds,
+    extract_input_devices t = Ok ds ->
+    lookups_ok sys_devnode true ds ->
+    select_all_keyboards glob_match sys_devnode t ex = OOk (spec_all ex ds)
+    /\ forall n, In n (spec_all ex ds) <-> exists d, In d ds /\ selectable ex d n.
+  Proof.
+    intros t ex ds H1 H2. split; [exact (select_all_spec t ex ds H1 H2)|exact (spec_all_In ex ds)].
+  Qed.
+
+  Theorem selection_dev_file : forall t ex ds devices,
+    extract_input_devices t = Ok ds ->
+    lookups_ok sys_devnode false ds ->
+    canon_clean canon ->
+    NoDup (canon_keys sys_devnode canon ds) ->
+    filter_devices glob_match sys_devnode canon t devices true ex
+    = OOk (spec_dev_file glob_match sys_devnode canon ex ds devices)
+    /\ forall s, In s (spec_dev_file glob_match sys_devnode canon ex ds devices) <->
+                 In s devices /\
+                 exists c n, canon s = Some c /\ canon n = Some c /\ In n (spec_all ex ds).
+  Proof.
+    intros t ex ds devices H1 H2 H3 H4.
+    split; [exact (filter_devices_spec t ex ds devices H1 H2 H3 H4)|exact (spec_dev_file_In ex ds devices)].
+  Qed.
+
+  Theorem guards_sound : forall ds,
+    (forall only, lookups_ok_b sys_devnode only ds = true -> lookups_ok sys_devnode only ds) /\
+    (canon_distinct_b sys_devnode canon ds = true -> NoDup (canon_keys sys_devnode canon ds)).
+  Proof.
+    intro ds. split; [intro only; exact (lookups_ok_b_sound only ds)|exact (nodup_bytes_NoDup (canon_keys sys_devnode canon ds))].
+  Qed.
 End Selection.
